@@ -43,7 +43,7 @@ def ops(g1, g2, pg):
 
 
 QUICK_PAIRS = [(0, 0), (0, 1), (1, 1), (1, 2), (1, 4), (1, 5), (1, 6), (1, 8), (1, 9), (0, 6),
-               (6, 6), (6, 7), (5, 9), (8, 8), (1, 3), (0, 9), (7, 1), (2, 10)]
+               (6, 6), (6, 7), (5, 9), (8, 8), (1, 3), (0, 9), (7, 1), (2, 10), (8, 10), (6, 10)]
 
 
 def scenarios(quick):
